@@ -6,6 +6,7 @@
         table   = (nrows ((name (cell ...)) ...))
    (X fixed ref newvalue (prefix syms) m) -> (md5 count)  digest of replace_ref over every
         symbol string prefix++q, |q| = m, symbols 0..5 = a blank , ( ) {ref}
+   (H fixed keepcat sidecar table ops)    -> ((rows (str ...)) | (exn E) | (none) ...) one per operation
    (K lo hi)                              -> ((cp isspace is_ref_char) ...) for the code points
         on which either predicate is true                                                  *)
 let exn_sx (e : exn) : sx = A (match e with
@@ -62,6 +63,19 @@ let () = main_loop (fun x ->
           L [A "ok"; L (List.map str_sx ser); L (List.map (fun (k, c) -> L [str_sx k; L (List.map str_sx c)]) out);
              L (List.map str_sx refs); L (List.map str_sx st1.tb_cat); L types;
              L (List.map (fun s -> bool_sx (wf_delim s)) ser); again]))
+  | L [A "H"; fx; kc; sc; L [nr; cols]; L ops] ->
+    (* history on one object: ops = (A ord) | (S sidecar) | (C r c text) *)
+    let sx_sc sc = List.map (fun p -> match p with L [k; v] -> (sx_str k, sx_jv v) | _ -> failwith "sc") (sx_list sc) in
+    let st = { tb_df = { t_cols = sx_cols cols; t_rows = sx_nat nr }; tb_cat = []; tb_sidecar = sx_sc sc } in
+    let ops = List.map (fun o -> match o with
+      | L [A "A"; ord] -> OAssemble (List.map sx_str (sx_list ord))
+      | L [A "S"; sc] -> OReset (sx_sc sc)
+      | L [A "C"; r; c; v] -> OSetCell (sx_nat r, sx_nat c, sx_str v)
+      | _ -> failwith "op") ops in
+    L (List.map (fun r -> match r with
+      | RRows rows -> L [A "rows"; L (List.map str_sx rows)]
+      | RExn e -> L [A "exn"; exn_sx e]
+      | RNone -> L [A "none"]) (run (sx_bool fx) (sx_bool kc) { o_tab = st; o_cats = [] } ops))
   | L [A "X"; fx; r; nv; L prefix; m] ->
     let fixed = sx_bool fx and r = sx_str r and nv = sx_str nv in
     let refs = "{" ^ ocaml_of_str r ^ "}" in
